@@ -32,9 +32,9 @@ Definition opt_nat_eqb (a b : option nat) : bool :=
 (* ... and the simulated credentials the real run ended with (real, effective,
    saved uid; real, effective, saved gid; supplementary groups) against the
    credential semantics applied to the model's trace *)
-Definition out_ok (st : start) (m : outcome) (i : impl_out) : bool :=
+Definition out_ok (st : start) (o : opts) (m : outcome) (i : impl_out) : bool :=
   let '(kind, (origin, (tr, creds))) := i in
-  list_eqb str_eqb (cred_list (final_cred (start_cred st) (out_trace m))) creds &&
+  list_eqb str_eqb (cred_list (final_cred (start_cred st o) (out_trace m))) creds &&
   match m with
   | Running t => (kind =? 0) && all2 eff_ok t tr
   | Abort o t => (kind =? 1) && opt_nat_eqb o origin && all2 eff_ok t tr
@@ -45,7 +45,7 @@ Definition out_ok (st : start) (m : outcome) (i : impl_out) : bool :=
 (* ((whole initialize?, (options, (failure, (parent side of fork?, starting credentials)))), implementation outcome) *)
 Definition chk_run (c : (bool * (opts * (option (nat * xcls) * (bool * start)))) * impl_out) : bool :=
   let '((whole, (o, (f, (parent, st)))), i) := c in
-  let W := World f ((lit "os.fork", if parent then VInt 4242 else VInt 0) :: start_results st) in
+  let W := World f ((lit "os.fork", if parent then VInt 4242 else VInt 0) :: start_results st o) in
   let m := if whole then run prog W (mkcfg o) (lit "initialize") [VStr (lit "pygopherd.conf")]
            else run prog W (mkcfg o) (lit "init_security") [VSym (lit "config")] in
-  out_ok st m i.
+  out_ok st o m i.
